@@ -41,6 +41,8 @@ pub const EXTREME: &[&str] = &[
     "18446744073709551616", "99999999999999999999999999999999", "$10000000000000000000",
     "%1111111111111111111111111111111111111111111111111111111111111111111111", "-9223372036854775808", "63", "64", "31", "32",
     "TRUE", "False", "true",
+    // the most negative value has no literal of its own (the sign is an operator): it only arises from arithmetic
+    "(-9223372036854775807 - 1)", "(0 - 9223372036854775807 - 1)", "($7fffffffffffffff + 1)", "(1 << 63)", "(-1 << 63)",
 ];
 
 /// values that would make `.loop`/`.align` run (practically) for ever or allocate without bound
